@@ -72,7 +72,10 @@ struct net;
 static net *cur_net = nullptr;
 
 // ---- pivot instrumentation (C20) --------------------------------------------------------------
-static std::atomic<long> pv_tasks{0}, pv_running{0}, pv_maxconc{0}, pv_order_hash{0}, pv_seq{0};
+static std::atomic<long> pv_tasks{0}, pv_running{0}, pv_maxconc{0}, pv_seq{0};
+static std::mutex pv_mtx;                  // protects the monitor's own completion log (never held while library code runs)
+static std::vector<long> pv_completion;    // tickets (start order) in completion order
+static thread_local long pv_ticket = -1;
 static long pv_delay_seed = 0; // 0 = no delay injection
 static void pv_delay(int phase)
 {
@@ -166,7 +169,7 @@ struct net : public verif::listener
     {
         if (phase == 0)
         {
-            pv_tasks.fetch_add(1, std::memory_order_relaxed);
+            pv_ticket = pv_tasks.fetch_add(1, std::memory_order_relaxed);
             long r = pv_running.fetch_add(1, std::memory_order_relaxed) + 1;
             long m = pv_maxconc.load(std::memory_order_relaxed);
             while (r > m && !pv_maxconc.compare_exchange_weak(m, r, std::memory_order_relaxed))
@@ -177,6 +180,10 @@ struct net : public verif::listener
         else
         {
             pv_delay(phase);
+            {
+                std::lock_guard<std::mutex> lock(pv_mtx);
+                pv_completion.push_back(pv_ticket);
+            }
             pv_running.fetch_sub(1, std::memory_order_relaxed);
         }
     }
@@ -596,6 +603,7 @@ int main(int argc, char **argv)
             continue;
         std::cerr << "@case " << (ops[0].size() > 1 ? ops[0][1] : "?") << std::endl;
         pv_tasks = 0;
+        pv_completion.clear();
         pv_maxconc = 0;
         pv_running = 0;
         pv_seq = 0;
@@ -605,7 +613,15 @@ int main(int argc, char **argv)
             verif::current() = &n;
             for (size_t i = 1; i < ops.size(); ++i)
                 n.run_op(ops[i], i);
-            n.ev("{\"end\":true,\"pivot_tasks\":" + std::to_string(pv_tasks.load()) + ",\"pivot_maxconc\":" + std::to_string(pv_maxconc.load()) + "}");
+            unsigned long oh = 1469598103934665603UL;
+            long inversions = 0;
+            for (size_t k = 0; k < pv_completion.size(); ++k)
+            {
+                oh = (oh ^ static_cast<unsigned long>(pv_completion[k])) * 1099511628211UL;
+                if (k && pv_completion[k] < pv_completion[k - 1])
+                    ++inversions;
+            }
+            n.ev("{\"end\":true,\"pivot_tasks\":" + std::to_string(pv_tasks.load()) + ",\"pivot_maxconc\":" + std::to_string(pv_maxconc.load()) + ",\"pivot_order\":\"" + std::to_string(oh) + "\",\"pivot_inversions\":" + std::to_string(inversions) + "}");
             verif::current() = nullptr;
             result = n.out.str();
         }
